@@ -5,6 +5,7 @@ from pyteal.ast.seq import _use_seq_if_multiple
 from pyteal.errors import (
     TealCompileError,
     TealInputError,
+    TealTypeError,
 )
 from pyteal.types import TealType, require_type
 from pyteal.ir import TealSimpleBlock, TealConditionalBlock
@@ -94,7 +95,17 @@ class If(Expr):
             require_type(self.thenBranch, TealType.none)
             return TealType.none
 
-        return self.thenBranch.type_of()
+        # both branches must evaluate to the same type; the constructor and Else() compare
+        # only the two arms they are given, so an arm attached through ElseIf() is
+        # compared with the arms before it here
+        then_type = self.thenBranch.type_of()
+        else_type = self.elseBranch.type_of()
+        if then_type != else_type and (
+            TealType.none in (then_type, else_type)
+            or TealType.anytype not in (then_type, else_type)
+        ):
+            raise TealTypeError(then_type, else_type)
+        return then_type
 
     def has_return(self):
         if self.thenBranch is None:
